@@ -271,6 +271,9 @@ func replayCodec(id, fn string, a1, a2 []byte) {
 		})
 	case "quote":
 		res = guarded(func() string { return codecObs(ijson.MarshalEscaped(string(a2), string(a1) == "1")) })
+	case "enc":
+		emitEnc(id, string(a1) == "1", a2)
+		return
 	default:
 		return
 	}
